@@ -154,6 +154,8 @@ def api_stage(v, prop, d, drv, seed, tier):
         v.cov["api_states"] = ma["distinct"]
         mo = vlib.tlc_mc(d, "ApiControlMC.tla", "ApiControlObs.cfg", timeout=600)
         v.cov["api_observation_mining_without_miner_reachable"] = bool(mo["violated"])
+        mo2 = vlib.tlc_mc(d, "ApiControlMC.tla", "ApiControlObs2.cfg", timeout=600)
+        v.cov["api_observation_miner_started_on_locked_wallet_reachable"] = bool(mo2["violated"])
         log("MC ApiControl: %d distinct states; observation (a space reaches mining while the miner is stopped) reachable: %s" % (ma["distinct"], bool(mo["violated"])))
     n = 300 if tier == "quick" else 3000
     behs, w = vlib.tlc_generate(d, "ApiGen.tla", "ApiGen.cfg", n, 31, seed + 31337)
